@@ -3,7 +3,7 @@ from shell import c10
 
 ID = "C10"
 LEVEL = "other"
-FUNCTIONS = ["TradingEnv.notify", "TradingEnv.step"]
+FUNCTIONS = ["TradingEnv.notify", "TradingEnv.step", "TradingEnv.reset"]
 SHELL = [c10.isolation]
 LEVEL_TEXT = ("Kernel (frames): the only location outside the environment that its reset/step path writes is the process-wide "
               "AbstractContract.now (write log of TradingEnv.step/notify vs their `modifies`), and step writes this environment's own time "
@@ -14,7 +14,9 @@ LEVEL_TEXT = ("Kernel (frames): the only location outside the environment that i
 EXPLANATION = LEVEL_TEXT
 NOT_DEDUCTIVE = ["reinitialisation of every field by reset and the absence of ambient nondeterminism (DESIGN section 7 C10 iii/iv): the generic "
                  "frame analysis was not built; bounded shell only", "bit identity of floating-point results (A1): shell only"]
-EXTRA_ASSUMPTIONS = ["ASSUMED contracts: IState.__call__, Transmitter._next"]
+EXTRA_ASSUMPTIONS = [
+    "TradingEnv.reset is verified to establish the environment invariant that TradingEnv.step assumes at entry and re-establishes at exit, modulo ASSUMED summaries (IState.reset, Transmitter._reset, Transmitter._next, IState.__call__) and TRUSTED small models (sorted() as a permutation ordered by IEvent.__lt__ - itself executed -, Cash() as one fixed cash key with the precondition that the space's base currency is that key, defaultdict(LimitOrderBook) as an empty book table whose rows read NaN : NaN, alive, AbstractContract.verify/Rate.verify, np.inf as an unconstrained constant); the configuration clauses (fees >= 0, contract specs in the property's regime, reward parameters, 0 within the box bounds) are preconditions of reset",
+    "ASSUMED contracts: IState.__call__, Transmitter._next"]
 
 import ast
 from pyvc import front, lemma
